@@ -37,18 +37,21 @@ type Evt struct {
 }
 
 type limitCfg struct {
-	name    string
-	shard   sqlgen.Filter
-	dynamic sqlgen.Filter
-	all     map[string]driver.Value // column -> value every statement must be confined to
+	name     string
+	shard    sqlgen.Filter
+	dynamic  sqlgen.Filter
+	all      map[string]driver.Value // column -> value every statement must be confined to
+	dynFirst bool                    // the dynamic limit is put on the handle before the shard limit
 }
 
 func limits() []limitCfg {
 	return []limitCfg{
-		{"shard(org)", sqlgen.Filter{"org_id": int64(1)}, nil, map[string]driver.Value{"org_id": int64(1)}},
-		{"shard(org,region)", sqlgen.Filter{"org_id": int64(1), "region": "us"}, nil, map[string]driver.Value{"org_id": int64(1), "region": "us"}},
-		{"dynamic(org)", nil, sqlgen.Filter{"org_id": int64(1)}, map[string]driver.Value{"org_id": int64(1)}},
-		{"shard(org)+dynamic(region)", sqlgen.Filter{"org_id": int64(1)}, sqlgen.Filter{"region": "us"}, map[string]driver.Value{"org_id": int64(1), "region": "us"}},
+		{"shard(org)", sqlgen.Filter{"org_id": int64(1)}, nil, map[string]driver.Value{"org_id": int64(1)}, false},
+		{"shard(org,region)", sqlgen.Filter{"org_id": int64(1), "region": "us"}, nil, map[string]driver.Value{"org_id": int64(1), "region": "us"}, false},
+		{"dynamic(org)", nil, sqlgen.Filter{"org_id": int64(1)}, map[string]driver.Value{"org_id": int64(1)}, false},
+		{"shard(org)+dynamic(region)", sqlgen.Filter{"org_id": int64(1)}, sqlgen.Filter{"region": "us"}, map[string]driver.Value{"org_id": int64(1), "region": "us"}, false},
+		{"dynamic(region)+shard(org)", sqlgen.Filter{"org_id": int64(1)}, sqlgen.Filter{"region": "us"}, map[string]driver.Value{"org_id": int64(1), "region": "us"}, true},
+		{"dynamic(org)+shard(region)", sqlgen.Filter{"region": "us"}, sqlgen.Filter{"org_id": int64(1)}, map[string]driver.Value{"org_id": int64(1), "region": "us"}, true},
 	}
 }
 
@@ -76,7 +79,7 @@ func newEnv(lim limitCfg) *env {
 	fdb.Tables["evts"].Rows = [][]driver.Value{{int64(1), int64(1), "x"}, {int64(2), int64(2), "y"}}
 	db := sqlgen.NewDB(fdb.Open(), schema)
 	var err error
-	if lim.shard != nil {
+	if lim.shard != nil && !lim.dynFirst {
 		if db, err = db.WithShardLimit(lim.shard); err != nil {
 			panic(err)
 		}
@@ -88,6 +91,11 @@ func newEnv(lim limitCfg) *env {
 			ShouldContinueOnError: func(err error, table string) bool { return false },
 		})
 		if err != nil {
+			panic(err)
+		}
+	}
+	if lim.shard != nil && lim.dynFirst {
+		if db, err = db.WithShardLimit(lim.shard); err != nil {
 			panic(err)
 		}
 	}
